@@ -158,3 +158,12 @@ Proof.
   repeat split; try (vm_compute; congruence).
   intros g. unfold ex_nonmono. destruct ((55000 <=? g) && (g <? 62000)); [discriminate|]. destruct (90000 <=? g); discriminate.
 Qed.
+
+(* the bound on the cap in C08_estimate_never_out_of_fuel is needed: with a cap of 2^64-1 (hi+lo wraps around
+   uint64) and a call that fails with every gas limit, lo is driven down to 0 and up again for ever; the Go loop
+   does the same.  The gas cap is node configuration (default 25,000,000) and a request cannot raise it
+   (C08_est_hi_le_gas_cap), so this is not reachable by a request *)
+Example C08_example_wraparound_search_cycles :
+  bin_search 5000 (fun _ => ExOOG) (TxGas - 1) 18446744073709551615 = BFuel /\
+  In 0 (map (fun g => g / 2) (bin_probes 200 (fun _ => ExOOG) (TxGas - 1) 18446744073709551615)).
+Proof. vm_compute. split; [reflexivity|]. tauto. Qed.
